@@ -307,7 +307,9 @@ def analyse(ops, case):
     exp_pos = [imgs_x[f[0]] for f in fibres]
     stab = stabiliser(ops, off, ref)
     res = {"clusters": fibres, "positions": exp_pos, "stab": stab, "nops": len(ops), "judged": True, "why_not": "",
-           "fragile": False, "first": red(x)}
+           "fragile": False, "first": red(x),
+           # any image of the input site that belongs to the cluster is an acceptable representative
+           "cluster_images": [sorted(set(imgs_x[i] for i in f)) for f in fibres]}
     P = numpy.array([[int(c * Dn) for c in p] for p in imgs_x], dtype=numpy.int64)
     cl = numpy.empty(len(ops), dtype=numpy.int64)
     for j, f in enumerate(fibres):
@@ -375,7 +377,7 @@ def judge(expected, positions, oplists, mult, tol=TOL):
     # match every returned position with one expected position
     used = {}
     for j, p in enumerate(pos):
-        k = next((k for k, q in enumerate(expected["positions"]) if pdist(p, q) <= tol), None)
+        k = next((k for k, qs in enumerate(expected["cluster_images"]) if any(pdist(p, q) <= tol for q in qs)), None)
         if k is None:
             bad.append(("not-an-image", "position %d = %r is not an image of the site" % (j, p)))
         elif k in used:
